@@ -330,6 +330,16 @@ def canonicalise_updates(tree: ast.Module) -> int:
                         ast.copy_location(new.target, st.targets[0])
                         block[i] = new
                         total += 1
+                    # (15) `obj.field += [e]` on a list-valued field is `obj.field.append(e)` (a bare local may be an array)
+                    elif isinstance(st, ast.AugAssign) and isinstance(st.op, ast.Add) and isinstance(st.target, ast.Attribute) \
+                            and isinstance(st.value, ast.List) and len(st.value.elts) == 1 and not isinstance(st.value.elts[0], ast.Starred):
+                        recv = ast.Attribute(value=st.target.value, attr=st.target.attr, ctx=ast.Load())
+                        call = ast.Call(func=ast.Attribute(value=recv, attr="append", ctx=ast.Load()), args=[st.value.elts[0]], keywords=[])
+                        new = ast.Expr(value=call)
+                        for x in (recv, call, call.func, new):
+                            ast.copy_location(x, st)
+                        block[i] = new
+                        total += 1
     return total
 
 
@@ -643,10 +653,24 @@ def _straight_line(fn) -> Optional[List[ast.stmt]]:
             if isinstance(n, ast.Attribute) and n.attr == fn.name:
                 return None  # recursion through self
     params = {x.arg for x in a.args}
-    for st in body:
-        for n in ast.walk(st):
-            if isinstance(n, ast.Name) and isinstance(n.ctx, (ast.Store, ast.Del)) and n.id in params:
-                return None  # a parameter is re-bound
+    rebound = sorted({n.id for st in body for n in ast.walk(st) if isinstance(n, ast.Name) and isinstance(n.ctx, (ast.Store, ast.Del)) and n.id in params})
+    if rebound:
+        # a re-bound parameter is a local that starts as the argument: `p_r = p` first, `p_r` everywhere after
+        # (private helpers only: the package's own closures that thread a value through a parameter stay calls)
+        if not fn.name.startswith("_"):
+            return None
+        if any(isinstance(n, ast.Name) and isinstance(n.ctx, ast.Del) and n.id in rebound for st in body for n in ast.walk(st)):
+            return None
+        body = [copy.deepcopy(x) for x in body]
+        for st in body:
+            for n in ast.walk(st):
+                if isinstance(n, ast.Name) and n.id in rebound:
+                    n.id = n.id + "_r"
+        head = [ast.Assign(targets=[ast.Name(id=q + "_r", ctx=ast.Store())], value=ast.Name(id=q, ctx=ast.Load())) for q in rebound]
+        for h in head:
+            ast.copy_location(h, body[0])
+            ast.fix_missing_locations(h)
+        body = head + body
     if a.kwarg is not None:
         kw = a.kwarg.arg
         for st in body:
@@ -1369,8 +1393,62 @@ def index_neighbour_pairs(tree: ast.Module) -> int:
     return total
 
 
+# ---------------------------------------------------------------------------------------------- (16) local alias of a fresh field value
+def fold_field_aliases(tree: ast.Module) -> int:
+    """`L = E` directly followed by `self.F = L` (each stored exactly once in the function) names one object twice: the
+    pair is written `self.F = E` and every later read of `L` as `self.F`.  (A callee that re-binds self.F in between would
+    break the equivalence; none of the package's constructors calls such a method — accepted, documented.)"""
+    total = 0
+    for fn in [n for n in ast.walk(tree) if isinstance(n, FUNC)]:
+        if not (fn.args.args and fn.args.args[0].arg == "self"):
+            continue
+        for holder in ast.walk(fn):
+            for fld in ("body", "orelse", "finalbody"):
+                block = getattr(holder, fld, None)
+                if not (isinstance(block, list) and block and isinstance(block[0], ast.stmt)):
+                    continue
+                i = 0
+                while i + 1 < len(block):
+                    a, b = block[i], block[i + 1]
+                    i += 1
+                    if not (isinstance(a, ast.Assign) and len(a.targets) == 1 and isinstance(a.targets[0], ast.Name)
+                            and isinstance(b, ast.Assign) and len(b.targets) == 1 and isinstance(b.targets[0], ast.Attribute)
+                            and isinstance(b.targets[0].value, ast.Name) and b.targets[0].value.id == "self"
+                            and isinstance(b.value, ast.Name) and b.value.id == a.targets[0].id):
+                        continue
+                    L, F = a.targets[0].id, b.targets[0].attr
+                    if not isinstance(a.value, (ast.List, ast.Dict, ast.Set, ast.ListComp, ast.DictComp, ast.SetComp, ast.Call)):
+                        continue
+                    if _stores(fn, L) != 1:
+                        continue
+                    f_stores = sum(1 for n in ast.walk(fn) if isinstance(n, ast.Attribute) and n.attr == F and isinstance(n.ctx, (ast.Store, ast.Del))
+                                   and isinstance(n.value, ast.Name) and n.value.id == "self")
+                    if f_stores != 1 or L in {x.arg for x in fn.args.args + fn.args.kwonlyargs}:
+                        continue
+                    b.value = a.value
+                    del block[i - 1]
+                    i -= 1
+
+                    class _R(ast.NodeTransformer):
+                        def visit_Name(self, n):
+                            if n.id == L and isinstance(n.ctx, ast.Load):
+                                return ast.copy_location(ast.Attribute(value=ast.copy_location(ast.Name(id="self", ctx=ast.Load()), n), attr=F, ctx=ast.Load()), n)
+                            return n
+
+                    for st in ast.walk(fn):
+                        for f2 in ("body", "orelse", "finalbody"):
+                            bl = getattr(st, f2, None)
+                            if isinstance(bl, list) and bl and isinstance(bl[0], ast.stmt):
+                                bl[:] = [_R().visit(x) if x is not b else x for x in bl]
+                    total += 1
+    if total:
+        ast.fix_missing_locations(tree)
+    return total
+
+
 def normalise(tree: ast.Module, keep=frozenset(), facts=None) -> Dict[str, int]:
     kz = index_neighbour_pairs(tree)
+    kz += fold_field_aliases(tree)
     k8 = positional_package_arguments(tree, facts)
     k9 = propagate_stable_aliases(tree, facts)
     k9 += propagate_pure_temporaries(tree, facts)
